@@ -598,6 +598,8 @@ class SymBytes:
             return b
         if isinstance(b, (bytes, bytearray)):
             return cls(list(b))
+        if isinstance(b, SymByteArray):
+            return cls(list(b.cells))
         raise EngineUnsupported("byte string of %r" % (type(b).__name__,))
 
     def is_concrete(self):
@@ -768,6 +770,58 @@ class SymBytes:
     def hex(self):
         return SymHex(self)
 
+    # -- bytes methods that inspect content: decided per byte, forking on the symbolic ones
+    def _strip(self, chars, left, right):
+        ws = bytes(chars) if chars is not None else b" \t\n\r\x0b\x0c"
+        items = self.items()
+        lo, hi = 0, len(items)
+
+        def member(a):
+            if isinstance(a, int):
+                return a in ws
+            return bool(_mk_bool(z3.Or([T(a) == c for c in ws]))) if ws else False
+        while left and lo < hi and member(items[lo]):
+            lo += 1
+        while right and hi > lo and member(items[hi - 1]):
+            hi -= 1
+        return self if (lo, hi) == (0, len(items)) else self._slice(lo, hi)
+
+    def strip(self, chars=None):
+        return self._strip(chars, True, True)
+
+    def lstrip(self, chars=None):
+        return self._strip(chars, True, False)
+
+    def rstrip(self, chars=None):
+        return self._strip(chars, False, True)
+
+    def startswith(self, prefix, *a):
+        if a or isinstance(prefix, tuple):
+            raise EngineUnsupported("bytes.startswith with offsets/tuple on symbolic bytes")
+        prefix = SymBytes.of(prefix)
+        if len(prefix) > self._n:
+            return False
+        return self._slice(0, len(prefix)) == prefix
+
+    def endswith(self, suffix, *a):
+        if a or isinstance(suffix, tuple):
+            raise EngineUnsupported("bytes.endswith with offsets/tuple on symbolic bytes")
+        suffix = SymBytes.of(suffix)
+        if len(suffix) > self._n:
+            return False
+        return self._slice(self._n - len(suffix), self._n) == suffix
+
+    def __mul__(self, k):
+        if isinstance(k, int) and not isinstance(k, bool):
+            return SymBytes(self.parts * max(k, 0))
+        return NotImplemented
+    __rmul__ = __mul__
+
+    def __getattr__(self, name):
+        if not name.startswith("_") and hasattr(bytes, name):
+            raise EngineUnsupported("bytes.%s on symbolic bytes" % name)
+        raise AttributeError(name)
+
     def decode(self, enc="ascii"):
         if self.is_concrete():
             return self.concrete().decode(enc)
@@ -786,6 +840,82 @@ class SymBytes:
             else:
                 out.append(model.eval(v, model_completion=True).as_long() % 256)
         return bytes(out)
+
+
+class SymByteArray:
+    """mutable byte array of concrete length: one atom (concrete int or z3 byte term) per cell"""
+
+    def __init__(self, cells):
+        self.cells = list(cells)
+
+    def __len__(self):
+        return len(self.cells)
+
+    def _wrap(self, v):
+        return v if isinstance(v, int) else SymInt(v)
+
+    def __getitem__(self, k):
+        if isinstance(k, slice):
+            return SymByteArray(self.cells[k])
+        if isinstance(k, SymInt):
+            raise EngineUnsupported("symbolic index into bytearray")
+        return self._wrap(self.cells[k])
+
+    def __setitem__(self, k, v):
+        if isinstance(k, slice):
+            self.cells[k] = list(SymBytes.of(v).items()) if not isinstance(v, (list, tuple)) else [T_or_int(x) for x in v]
+            return
+        if isinstance(k, SymInt):
+            raise EngineUnsupported("symbolic index into bytearray")
+        if isinstance(v, SymInt):
+            c = Ctx.cur
+            if not bool(_mk_bool(z3.And(v.t >= 0, v.t <= 255))):
+                raise ValueError("byte must be in range(0, 256)")
+            self.cells[k] = v.t
+        else:
+            if not 0 <= v <= 255:
+                raise ValueError("byte must be in range(0, 256)")
+            self.cells[k] = int(v)
+
+    def __iter__(self):
+        return iter([self._wrap(v) for v in self.cells])
+
+    def append(self, v):
+        self.cells.append(None)
+        try:
+            self[len(self.cells) - 1] = v
+        except BaseException:
+            self.cells.pop()
+            raise
+
+    def extend(self, vs):
+        for v in (SymBytes.of(vs) if isinstance(vs, (bytes, bytearray, SymBytes, SymByteArray)) else vs):
+            self.append(v)
+
+    def reverse(self):
+        self.cells.reverse()
+
+    def __add__(self, o):
+        return SymByteArray(self.cells + list(SymBytes.of(o).items()))
+
+    def __eq__(self, o):
+        return SymBytes.of(self) == o
+
+    def __ne__(self, o):
+        return SymBytes.of(self) != o
+    __hash__ = None
+
+    def hex(self):
+        return SymBytes.of(self).hex()
+
+    def __getattr__(self, name):
+        if not name.startswith("_") and hasattr(bytearray, name):
+            raise EngineUnsupported("bytearray.%s on a symbolic bytearray" % name)
+        raise AttributeError(name)
+
+
+def T_or_int(x):
+    return x.t if isinstance(x, SymInt) else int(x)
 
 
 def _mk_bool(t):
